@@ -27,7 +27,7 @@ EXP = {
     "fint": {"3": 3, "0": 0, "1": 1},
     "fbool": {"true": True, "false": False},
     "fboolorfloat": {"true": True, "false": False, "2.5": 2.5},
-    "fintlist": {"[1,2,3]": [1, 2, 3], "[]": [], "[7]": [7]},
+    "fintlist": {"[1,2,3]": [1, 2, 3], "[]": [], "[7]": [7], "[0,2]": [0, 2]},
     "f1dfloatduple": {"(1.5,2)": (1.5, 2.0)},
     "f2dfloatarray": {"[[1,2],[3,4.5]]": np.array([[1, 2], [3, 4.5]])},
 }
